@@ -86,7 +86,25 @@ func (e *c16Env) store(etcd bool) metadata.Store {
 
 // c16Run executes the history; returns the fetch observations (one entry per fetch
 // step) and the first oracle failure.
+// keys present under /kafscale/consumers/ in the real etcd
+func (e *c16Env) consumerKeys() []string {
+	ctx, cancel := context.WithTimeout(context.Background(), 5*time.Second)
+	defer cancel()
+	resp, err := e.cli.Get(ctx, "/kafscale/consumers/", clientv3.WithPrefix(), clientv3.WithKeysOnly())
+	if err != nil {
+		e.t.Fatalf("etcd scan: %v", err)
+	}
+	out := []string{}
+	for _, kv := range resp.Kvs {
+		out = append(out, string(kv.Key))
+	}
+	return out
+}
+
+var c16LastKeys [][]string // per commit step of the last c16Run on etcd: the real key set afterwards
+
 func c16Run(e *c16Env, cs c16Case) (obs [][]c16Obs, failKind, fail string) {
+	c16LastKeys = nil
 	ctx := context.Background()
 	st := e.store(cs.Etcd)
 	if es, ok := st.(*metadata.EtcdStore); ok {
@@ -122,9 +140,15 @@ func c16Run(e *c16Env, cs c16Case) (obs [][]c16Obs, failKind, fail string) {
 			resp, err := c.OffsetCommit(ctx, req)
 			if err != nil || len(resp.Topics) != 1 || len(resp.Topics[0].Partitions) != 1 || resp.Topics[0].Partitions[0].ErrorCode != 0 {
 				setFail("commit-rejected", fmt.Sprintf("step %d: OffsetCommit(%q,%q,%d) failed: %v %+v", i, s.Group, s.Topic, s.Part, err, resp))
+				if cs.Etcd {
+					c16LastKeys = append(c16LastKeys, e.consumerKeys())
+				}
 				continue
 			}
 			ref[c16Key{s.Group, s.Topic, s.Part}] = c16Val{s.Off, s.Meta}
+			if cs.Etcd {
+				c16LastKeys = append(c16LastKeys, e.consumerKeys())
+			}
 			continue
 		}
 		req := kmsg.NewPtrOffsetFetchRequest()
@@ -175,8 +199,10 @@ func c16Run(e *c16Env, cs c16Case) (obs [][]c16Obs, failKind, fail string) {
 }
 
 // Structural class of a shrunk failing history. The recorded open finding is the
-// etcd key layout: with a topic name containing '/', two different (group, topic)
-// pairs share a key. Everything else gets its own key.
+// etcd key layout: with a TOPIC name containing '/', two different (group, topic)
+// pairs share a key. Only a topic name decides that: a failing history whose topics are
+// all '/'-free is a different defect whatever its group ids contain (C16_etcd_partial
+// promises isolation for every group id then), and gets its own key.
 func c16Classify(cs c16Case, kind string) string {
 	if cs.Etcd && (kind == "readback" || kind == "never-committed") {
 		for _, s := range cs.Steps {
@@ -209,12 +235,21 @@ func c16Str(s string) string {
 	return "(lit \"" + s + "\")"
 }
 
-func c16Coq(cs c16Case, obs [][]c16Obs) string {
+func c16Coq(cs c16Case, obs [][]c16Obs, keys [][]string) string {
 	var steps []string
-	k := 0
+	k, kc := 0, 0
 	for _, s := range cs.Steps {
 		if s.Commit {
-			steps = append(steps, fmt.Sprintf("KCommit %s %s %s %s %s", c16Str(s.Group), c16Str(s.Topic), cqZ(int64(s.Part)), cqZ(s.Off), c16Str(s.Meta)))
+			ks := "None"
+			if cs.Etcd && kc < len(keys) {
+				it := make([]string, len(keys[kc]))
+				for i, x := range keys[kc] {
+					it[i] = c16Str(x)
+				}
+				ks = "(Some " + cqList(it) + ")"
+			}
+			kc++
+			steps = append(steps, fmt.Sprintf("KCommit %s %s %s %s %s %s", c16Str(s.Group), c16Str(s.Topic), cqZ(int64(s.Part)), cqZ(s.Off), c16Str(s.Meta), ks))
 			continue
 		}
 		var req, ob []string
@@ -291,8 +326,46 @@ func c16Gen(r *vRand, etcd bool) c16Case {
 	return cs
 }
 
+// group-id families: ids that a careless key function could identify (path cleaning,
+// trailing / leading / doubled separators, dot segments, case, unicode normalisation,
+// surrounding whitespace, percent-encoding), all on the same '/'-free topic and partition,
+// with interleaved commits and fetches, some members of the family never committed.
+var c16Families = [][]string{
+	{"team", "team/", "team//", "team/.", "./team", "a/../team", "/team", "team/..", "x/../team/"},
+	{"a/b", "a//b", "a/./b", "a/b/", "a/c/../b", "/a/b"},
+	{"Team", "team", "TEAM", " team", "team ", "team\t", "te\u0301am", "t\u00e9am", "te\u0341am"},
+	{"g%2F1", "g/1", "g%2f1", "g%252F1", "g\\1"},
+	{"..", ".", "", "/", "./", "../", "./."},
+}
+
+func c16GenFamily(r *vRand, etcd bool) c16Case {
+	cs := c16Case{Etcd: etcd}
+	fam := c16Families[r.Intn(len(c16Families))]
+	topic := []string{"orders", "events", "a.b"}[r.Intn(3)]
+	part := int32(r.Range(0, 1))
+	// 2-4 members; at least one of them is never committed
+	var ids []string
+	for len(ids) < r.Range(2, 4) {
+		ids = append(ids, fam[r.Intn(len(fam))])
+	}
+	silent := r.Intn(len(ids))
+	n := r.Range(4, 12)
+	for i := 0; i < n; i++ {
+		k := r.Intn(len(ids))
+		if r.Chance(50) && (k != silent || ids[k] == ids[(silent+1)%len(ids)]) {
+			cs.Steps = append(cs.Steps, c16Step{Commit: true, Group: ids[k], Topic: topic, Part: part, Off: int64(10*(k+1) + i), Meta: fmt.Sprintf("m%d", k)})
+		} else {
+			cs.Steps = append(cs.Steps, c16Step{Group: ids[k], Req: []c16Req{{Topic: topic, Parts: []int32{part, part + 1}}}})
+		}
+	}
+	for _, id := range ids { // read every member back at the end
+		cs.Steps = append(cs.Steps, c16Step{Group: id, Req: []c16Req{{Topic: topic, Parts: []int32{part}}}})
+	}
+	return cs
+}
+
 func TestVerifC16(t *testing.T) {
-	rep := vNewReport("C16", "generated histories of 2-14 OffsetCommit / OffsetFetch calls through the real GroupCoordinator over 1-3 groups x 1-3 topics x partitions, names drawn from an alphabet with ':', '/', '%', unicode and the empty string (40% plain), each history on the real InMemoryStore and on the real EtcdStore; a case is non-trivial when a fetch reads back a committed offset and another fetch reads a never-committed partition; distinct = distinct canonical history")
+	rep := vNewReport("C16", "generated histories of 2-14 OffsetCommit / OffsetFetch calls through the real GroupCoordinator over 1-3 groups x 1-3 topics x partitions, names drawn from an alphabet with ':', '/', '%', unicode and the empty string (40% plain), each history on the real InMemoryStore and on the real EtcdStore; every third history is a group-id family (ids related by path cleaning, trailing/leading/double separators, dot segments, case, unicode normalisation, whitespace, percent-encoding; one slash-free topic and partition; interleaved commits and fetches, a member never committed); on etcd the real key set under /kafscale/consumers/ is read after every commit; a case is non-trivial when a fetch reads back a committed offset and another fetch reads a never-committed partition; distinct = distinct canonical history")
 	eps := testutil.StartEmbeddedEtcd(t)
 	cli, err := clientv3.New(clientv3.Config{Endpoints: eps, DialTimeout: 5 * time.Second})
 	if err != nil {
@@ -303,6 +376,7 @@ func TestVerifC16(t *testing.T) {
 	var coq, jsons []string
 	runOne := func(cs c16Case) {
 		obs, kind, fail := c16Run(e, cs)
+		keys := c16LastKeys
 		canon, _ := json.Marshal(cs)
 		hit, miss := false, false
 		for _, os_ := range obs {
@@ -336,7 +410,7 @@ func TestVerifC16(t *testing.T) {
 			}
 			rep.Fail(k2, c16Classify(shr, k2), f2, shr)
 		}
-		coq = append(coq, c16Coq(cs, obs))
+		coq = append(coq, c16Coq(cs, obs, keys))
 		jsons = append(jsons, string(canon))
 	}
 	if rc := vReplayCase(); rc != nil {
@@ -356,6 +430,9 @@ func TestVerifC16(t *testing.T) {
 				{Etcd: etcd, Steps: []c16Step{{Commit: true, Group: "a:b", Topic: "c", Off: 7, Meta: "x"}, {Group: "a", Req: []c16Req{{Topic: "b:c", Parts: []int32{0}}}}, {Group: "a:b", Req: []c16Req{{Topic: "c", Parts: []int32{0}}}}}},
 				// etcd path collision (open finding on etcd)
 				{Etcd: etcd, Steps: []c16Step{{Commit: true, Group: "a/offsets/b", Topic: "c", Off: 7, Meta: "x"}, {Group: "a", Req: []c16Req{{Topic: "b/offsets/c", Parts: []int32{0}}}}}},
+				// group ids related by path cleaning, slash-free topic: must stay apart on every store
+				{Etcd: etcd, Steps: []c16Step{{Commit: true, Group: "team", Topic: "orders", Off: 11, Meta: "a"}, {Commit: true, Group: "team/", Topic: "orders", Off: 22, Meta: "b"}, {Commit: true, Group: "a/../team", Topic: "orders", Off: 33, Meta: "c"},
+					{Group: "team", Req: []c16Req{{Topic: "orders", Parts: []int32{0}}}}, {Group: "team/", Req: []c16Req{{Topic: "orders", Parts: []int32{0}}}}, {Group: "team/.", Req: []c16Req{{Topic: "orders", Parts: []int32{0}}}}, {Group: "./team", Req: []c16Req{{Topic: "orders", Parts: []int32{0}}}}}},
 				// groups with '/' but slash-free topics stay apart on etcd too
 				{Etcd: etcd, Steps: []c16Step{{Commit: true, Group: "g/1", Topic: "orders", Off: 5}, {Commit: true, Group: "g", Topic: "orders", Part: 1, Off: 6}, {Group: "g/1", Req: []c16Req{{Topic: "orders", Parts: []int32{0, 1}}}}, {Group: "g", Req: []c16Req{{Topic: "orders", Parts: []int32{0, 1}}}}}},
 			}
@@ -366,6 +443,11 @@ func TestVerifC16(t *testing.T) {
 		r := vNewRand(vSeed())
 		n := vN(120, 1600)
 		for i := 0; i < n; i++ {
+			if i%3 == 2 {
+				rep.Hist("gen:group-id-family")
+				runOne(c16GenFamily(r.Fork(), i%2 == 1))
+				continue
+			}
 			runOne(c16Gen(r.Fork(), i%2 == 1))
 		}
 	}
